@@ -74,8 +74,26 @@ static int op_skiphist(toks_t *t)
     rgb[(y * w + x) * 3 + 1] = (unsigned char)((y * 7 + ((r >> 3) & 31)) & 255);
     rgb[(y * w + x) * 3 + 2] = (unsigned char)(((x ^ y) * 5 + (r >> 5) * 9) & 255);
   }
+  if (ss >= 10) {
+    /* non-standard sampling factors: luma (ss/10) x (ss%10), chroma 1x1, through the libjpeg API */
+    struct jpeg_compress_struct c; my_err_t ce; unsigned long ul = 0;
+    c.err = my_err_init(&ce);
+    jpeg_create_compress(&c);
+    if (setjmp(ce.jb)) { printf("R skip compress %d\n", ce.code); jpeg_destroy_compress(&c); goto done; }
+    jpeg_mem_dest(&c, &jb, &ul);
+    c.image_width = w; c.image_height = h; c.input_components = 3; c.in_color_space = JCS_RGB;
+    jpeg_set_defaults(&c); jpeg_set_quality(&c, 85, TRUE);
+    c.comp_info[0].h_samp_factor = ss / 10; c.comp_info[0].v_samp_factor = ss % 10;
+    if (prog) jpeg_simple_progression(&c);
+    c.arith_code = arith;
+    jpeg_start_compress(&c, TRUE);
+    for (y = 0; y < h; y++) { JSAMPROW rp = rgb + (size_t)y * w * 3; jpeg_write_scanlines(&c, &rp, 1); }
+    jpeg_finish_compress(&c); jpeg_destroy_compress(&c);
+    js = ul;
+  } else {
   tj3Set(hc, TJPARAM_SUBSAMP, ss); tj3Set(hc, TJPARAM_QUALITY, 85); tj3Set(hc, TJPARAM_PROGRESSIVE, prog); tj3Set(hc, TJPARAM_ARITHMETIC, arith);
   if (tj3Compress8(hc, rgb, w, 0, h, TJPF_RGB, &jb, &js) < 0) { printf("R skip compress\n"); goto done; }
+  }
   printf("R ok\n");
   for (pass = 0; pass < 2 && !bad; pass++) {      /* pass 0: full decode; pass 1: the history */
     struct jpeg_decompress_struct d; my_err_t e;
